@@ -23,6 +23,8 @@ def run(ctx):
     import roles as _roles
     _roles.rule_R_ROLE(ctx, modules=('enum_narsese::',))
     _roles.rule_A_NAMES(ctx, modules=('enum_narsese::',))
+    import lskel as _lskel
+    _lskel.rule_L_SKELETON(ctx, which=('term',), floor=10)
     ctx.undecided = ["nothing value-dependent beyond the induction over nesting depth; std HashSet::eq is trusted to implement set equality "
                      "given a Hash consistent with Eq (which the H-* premises establish)"]
     ctx.assumptions = ["std HashSet<T>::eq = same length and every element of one contained in the other", "String/usize equality is the identity relation"]
